@@ -388,6 +388,9 @@ func checkPlain(pc PlainCase) (key, msg string, out uint64) {
 		s.Regions["zz-bare"] = &astisub.Region{ID: "zz-bare"}
 		s.Items = append(s.Items, &astisub.Item{StartAt: 7 * time.Second, EndAt: 8 * time.Second, Style: s.Styles["zz-bare"], Region: s.Regions["zz-bare"],
 			Lines: []astisub.Line{{Items: []astisub.LineItem{{Text: "bare", Style: s.Styles["zz-bare"]}}}}})
+		// a cue referring to a style and a region that are NOT in the list's tables (a writer may not register them)
+		s.Items = append(s.Items, &astisub.Item{StartAt: 11 * time.Second, EndAt: 12 * time.Second, Style: &astisub.Style{ID: "loose", InlineStyle: &astisub.StyleAttributes{SSABold: astikit.BoolPtr(true)}},
+			Region: &astisub.Region{ID: "loose", InlineStyle: &astisub.StyleAttributes{WebVTTLines: 2}}, Lines: []astisub.Line{{Items: []astisub.LineItem{{Text: "loose"}}}}})
 		// a cue that exceeds what some formats can carry (30 lines, a 300-character line): a writer may cut what it
 		// writes, not what it was given
 		many := make([]astisub.Line, 0, 40)
